@@ -106,6 +106,37 @@ pub fn run(k: &str, a: &Value) -> Option<Value> {
                 basis_out(&b, &p3(&a["q"]), tol)
             }
         }
+        "basis_ops" => {
+            let tol = f(&a["tol"]);
+            let rows: Vec<Vec<f64>> = a["basis"].as_array().unwrap().iter().map(fv).collect();
+            let (sv, c, q) = (fv(&a["sv"]), fv(&a["center"]), fv(&a["q"]));
+            let n = a["n"].as_u64().unwrap() as usize;
+            if rows.len() == 2 {
+                let b = SvdBasis::<2> { basis: [parry3d_f64::na::Vector2::new(rows[0][0], rows[0][1]), parry3d_f64::na::Vector2::new(rows[1][0], rows[1][1])], sv: [sv[0], sv[1]], center: Point2::new(c[0], c[1]), n };
+                let mut o = basis_out(&b, &Point2::new(q[0], q[1]), tol);
+                o["vec_to_basis"] = json!(b.vec_to_basis(&parry3d_f64::na::Vector2::new(q[0], q[1])).iter().map(|x| fo(*x)).collect::<Vec<_>>());
+                o["origin_back"] = json!(b.point_from_basis(&Point2::origin()).coords.iter().map(|x| fo(*x)).collect::<Vec<_>>());
+                o["largest"] = json!(b.largest().iter().map(|x| fo(*x)).collect::<Vec<_>>());
+                o["smallest"] = json!(b.smallest().iter().map(|x| fo(*x)).collect::<Vec<_>>());
+                o
+            } else {
+                let b = SvdBasis::<3> { basis: [v3(&a["basis"][0]), v3(&a["basis"][1]), v3(&a["basis"][2])], sv: [sv[0], sv[1], sv[2]], center: p3(&a["center"]), n };
+                let mut o = basis_out(&b, &p3(&a["q"]), tol);
+                o["vec_to_basis"] = json!(b.vec_to_basis(&v3(&a["q"])).iter().map(|x| fo(*x)).collect::<Vec<_>>());
+                o["origin_back"] = json!(b.point_from_basis(&Point3::origin()).coords.iter().map(|x| fo(*x)).collect::<Vec<_>>());
+                o["largest"] = json!(b.largest().iter().map(|x| fo(*x)).collect::<Vec<_>>());
+                o["smallest"] = json!(b.smallest().iter().map(|x| fo(*x)).collect::<Vec<_>>());
+                o
+            }
+        }
+        "plane_intersection" => {
+            let pl = Plane3::new(Unit::new_unchecked(v3(&a["n"])), f(&a["d"]));
+            let sp = SurfacePoint3::new(p3(&a["p"]), Unit::new_unchecked(v3(&a["s"])));
+            match pl.intersection_distance(&sp) {
+                Some(t) => json!({"some": fo(t), "sd_hit": fo(pl.signed_distance_to_point(&(sp.point + sp.normal.into_inner() * t)))}),
+                None => json!({"none": true}),
+            }
+        }
         "mean_point" => {
             let pts: Vec<Vec<f64>> = a["points"].as_array().unwrap().iter().map(fv).collect();
             let p: Vec<Point3> = pts.iter().map(|c| Point3::new(c[0], c[1], c[2])).collect();
